@@ -173,6 +173,17 @@ def make_engine_provider(sysobj, side, oid_is_path, case_sensitive, filter_event
                 raise {R_TEMP: ex.CloudTemporaryError, R_TOKEN: ex.CloudTokenError,
                        R_SPACE: ex.CloudOutOfSpaceError}[kind]("injected")
 
+        def _stuck(self, name, info):
+            """C10 'a file that keeps failing': every engine write addressed to the stuck path on this side raises a temporary
+            error ("locked") until the schedule says Unstick."""
+            st = sysobj.stuck
+            if st is None or st["side"] != self._vside or name not in ("create", "upload", "mkdir", "rename"):
+                return
+            if info.get("path") == st["path"]:
+                st["hits"] += 1
+                sysobj.rec.ev("Fault", side=self._vside, call=name, kind=R_TEMP, n=-st["hits"])
+                raise ex.CloudTemporaryError("injected: locked")
+
         def _wrap(self, name, args, fn, pre=None):
             if self._vdepth or sysobj.in_user:
                 return fn()
@@ -181,6 +192,7 @@ def make_engine_provider(sysobj, side, oid_is_path, case_sensitive, filter_event
             info.update(pre or {})
             res = OK
             try:
+                self._stuck(name, info)
                 self._fault(name)
                 r = fn()
                 return r
@@ -433,6 +445,8 @@ class System:
         self.contents = Contents()
         self.rec = Recorder(self)
         self.inj = None
+        self.stuck = None
+        self.mid = None
         self.in_user = False
         self.aging = aging
         self.smart = smart
@@ -975,6 +989,18 @@ class System:
             if co is not None and co.exists and co.contents is not None:
                 self.eng[tok[1]].corrupt_paths[cp] = co.contents
             self.rec.ev("Corrupt", side=tok[1], path=tok[2])
+        elif k == "P":                    # ["P", side, path]: engine writes to that path on that side keep failing (locked)
+            self.stuck = {"side": tok[1], "path": tok[2], "hits": 0}
+        elif k == "Unstick":
+            hits = self.stuck["hits"] if self.stuck else 0
+            self.stuck = None
+            self.rec.ev("Unstick", hits=hits)
+        elif k == "Prog":                 # ["Prog", rounds]: fair rounds, then a progress report (trees) - the stuck file aside
+            for _ in range(tok[1]):
+                self.intake(0, 0)
+                self.intake(1, 0)
+                self.sync()
+            self.rec.ev("Progress", post=self.trees(), hits=self.stuck["hits"] if self.stuck else 0)
         elif k == "AQ":
             self.after_quiet()
         elif k == "Req":
